@@ -33,6 +33,16 @@ static void script_h(int HARNESS_, int id, int slot) {
         r = polyseed_decode_explicit(ph, 5, polyseed_get_lang(1), &s2); T(slot, (uint64_t)r);
         if (r == 0) { T(slot, polyseed_get_birthday(s2)); T(slot, polyseed_get_feature(s2, 7)); T(slot, (uint64_t)polyseed_is_encrypted(s2)); polyseed_free(s2); }
         polyseed_free(s);
+    } else if (HARNESS_ == 5) {         /* three threads, each a full create / encode / decode(auto) / free cycle in its own accent language */
+        static const int L5[3] = { 3, 4, 0 };
+        r = polyseed_create(0, &s); T(slot, (uint64_t)r);
+        size_t n = polyseed_encode(s, polyseed_get_lang(L5[id % 3]), 9, ph); Tbuf(slot, ph, n + 1);
+        r = polyseed_decode(ph, 9, &l, &s2); T(slot, (uint64_t)r);
+        if (r == 0) { polyseed_store(s2, st); Tbuf(slot, st, 32); polyseed_free(s2); }
+        polyseed_free(s);
+    } else if (HARNESS_ == 4) {         /* thread 0: decode (auto, Chinese: linear scan over two lists) + crypt with a non-ASCII password; thread 1: create, encode (Korean, composing), get/store, free */
+        if (id == 0) { r = polyseed_load(PRE_ST[0], &s); T(slot, (uint64_t)r); size_t n = polyseed_encode(s, polyseed_get_lang(9), 3, ph); Tbuf(slot, ph, n + 1); r = polyseed_decode(ph, 3, &l, &s2); T(slot, (uint64_t)r); if (r == 0) { T(slot, (uint64_t)lang_index(l)); polyseed_free(s2); } polyseed_crypt(s, "\xE5\xAF\x86\xE7\xA0\x81\xC3\xA9"); polyseed_store(s, st); Tbuf(slot, st, 32); polyseed_free(s); }
+        else { r = polyseed_create(2, &s); T(slot, (uint64_t)r); size_t n = polyseed_encode(s, polyseed_get_lang(2), 2047, ph); Tbuf(slot, ph, n + 1); T(slot, polyseed_get_birthday(s)); polyseed_store(s, st); Tbuf(slot, st, 32); r = polyseed_decode_explicit(ph, 2047, polyseed_get_lang(2), &s2); T(slot, (uint64_t)r); if (r == 0) polyseed_free(s2); polyseed_free(s); }
     } else {                            /* 3 threads, two operations each, same language and coin so that tables and globals collide */
         if (id == 0) { r = polyseed_create(1, &s); T(slot, (uint64_t)r); size_t n = polyseed_encode(s, polyseed_get_lang(0), 1, ph); Tbuf(slot, ph, n + 1); polyseed_free(s); }
         else if (id == 1) { r = polyseed_load(PRE_ST[1], &s); T(slot, (uint64_t)r); size_t n = polyseed_encode(s, polyseed_get_lang(0), 1, ph); Tbuf(slot, ph, n + 1); r = polyseed_decode_explicit(ph, 1, polyseed_get_lang(0), &s2); T(slot, (uint64_t)r); if (r == 0) polyseed_free(s2); polyseed_free(s); }
